@@ -195,3 +195,15 @@ class CountingIterator(rbql_engine.RBQLInputIterator):
         r = self.table[self.pos]
         self.pos += 1
         return r
+
+
+class CyclicIterator(CountingIterator):
+    """Unbounded input: repeats the rows of a (non-empty) table forever, as fresh lists."""
+
+    def get_record(self):
+        self.calls += 1
+        if self.calls > 10000:
+            raise RuntimeError('vf: query did not stop on unbounded input after 10000 records')
+        r = self.table[self.pos % len(self.table)]
+        self.pos += 1
+        return list(r)
